@@ -10,6 +10,7 @@ def natural(d):
     return (a, int(b))
 NOT_A_VIOLATION = {
     'C11-13': 'judged outside C11 (which compares fixed scenes whose decoders keep ahead; a decoder stall is a timing input) and inside what C10 grants a slow decoder (playback continues from where it stopped to within a frame: the change alters the sub-frame phase after a stall); see 12.1',
+    'C15-17': 'a slip in Value arithmetic (impl Sub for Value): a pure function of its inputs, the territory of C19, which is not applicable to this technique (DESIGN section 5); no schedule, fault or history is involved',
     'C18-5': 'judged not to break C18 at its stated precision (one frame after a seek); see 12.1',
     'C05-8': 'judged not decidable by C05 / C06 as stated: the properties do not say in which unit a tween between clock speeds of different units is linear (kira: the target\'s unit; the change: ticks per second); see 12.1',
     'C04-6': 'judged not decidable by C04 as stated: the order in which a loop-region change and a seek written in the same period take effect is not part of the property (per-kind mailboxes; either order is some sequential order of the two calls); see 12.1',
